@@ -10,7 +10,8 @@ from formats.treeinfo import err_name, float_entry, guarded  # noqa: F401
 
 ARCHES = ["x86_64", "ppc64le", "aarch64", "s390x", "i386", "src", "armhfp"]
 DESCRIPTIONS = ["Fedora 20", "Red Hat Enterprise Linux 7.1", "a", "100% pure", "x = y", "# not a comment", "it's", 'say "hi" now',
-                "é ü", "Fedora  21   Server", "1", "ALL", "a,b", "tab\there", "[x]", "; semi"]
+                "é ü", "Fedora  21   Server", "1", "ALL", "a,b", "tab\there", "[x]", "; semi",
+                "Fedora ;Server", "a #b", "a ; b", "a;b", "x: y", "%(a)s", "%%", "trailing\\", "nb\u00a0sp", "L" + "o" * 3000 + "ng"]
 SIMPLE_TS = [1417653911.123456, 1.0, 0.5, -3.25, 1e22, 1.5e-7, 123456789.0, 2.0 ** 53, 1e300, 5e-324, 1417653911.0]
 
 
